@@ -233,6 +233,7 @@ static W2Plan gen_w2(const std::string &prop, uint64_t vseed, uint64_t index) {
             if (r.chance(0.3)) p.nics[i].loopback = true;
         }
         if (r.chance(0.4)) p.ghosts = (int)r.range(1, 2);
+        if (r.chance(0.08)) p.ghosts = (int)r.pickl({127, 128, 129, 255, 256, 257, 300, 600, 1200}); // a container host: hundreds of veth links without addresses in the list
     }
     if (prop == "C19") { // longer well-formed sessions, handled frame by frame (the oracle compares one pass of the history with three)
         p.p_call = r.chance(0.7) ? 0.0 : 0.3; p.p_mem = 0; p.pct_thread = -1;
@@ -578,7 +579,7 @@ int w2_getifaddrs(struct ifaddrs **out) {
     // links without an address of any kind: entries whose ifa_addr is NULL, inserted at seeded positions (also in front)
     for (int gi = 0; gi < g_plan.ghosts; gi++) {
         struct ifaddrs *a = (struct ifaddrs *)calloc(1, sizeof(*a));
-        a->ifa_name = strdup(gi == 0 ? "tun0" : "wg0");
+        { char nm[24]; if (gi < 2) snprintf(nm, sizeof nm, "%s", gi == 0 ? "tun0" : "wg0"); else snprintf(nm, sizeof nm, "veth%d", gi); a->ifa_name = strdup(nm); }
         a->ifa_flags = (mix64(g_plan.seed, 0x6057 + (uint64_t)gi) & 1) ? (IFF_UP | IFF_RUNNING | IFF_POINTOPOINT) : IFF_POINTOPOINT;
         a->ifa_addr = nullptr;
         size_t len = 0; for (struct ifaddrs *c = head; c; c = c->ifa_next) len++;
